@@ -743,6 +743,37 @@ class PlSqlDialect(AnsiSqlDialect):
             "write",
             "year",
             "zone",
+            # Reserved words of Oracle SQL (which cannot be used as column name) missing from the PL/SQL keywords above.
+            "access",
+            "audit",
+            "column",
+            "column_value",
+            "file",
+            "increment",
+            "initial",
+            "integer",
+            "maxextents",
+            "mlslabel",
+            "nested_table_id",
+            "noaudit",
+            "number",
+            "offline",
+            "online",
+            "pctfree",
+            "rowid",
+            "rownum",
+            "rows",
+            "session",
+            "smallint",
+            "successful",
+            "sysdate",
+            "trigger",
+            "uid",
+            "user",
+            "validate",
+            "varchar",
+            "varchar2",
+            "whenever",
         ]
         self._keywords = set(keywords_as_list)
 
